@@ -165,7 +165,8 @@ func c08BigCase(r *vc.Rand, idx int, prefix string, huge bool) *atCase {
 	c.Tables = []*atTable{t}
 	o := atStmtOpts{params: true, rowsClass: "many"}
 	st := atGenUpdate(r, t, o)
-	if r.Bool() {
+	if r.Bool() || huge {
+		// the huge case always records whole rows (a DELETE), whatever columns an UPDATE would have tracked
 		st = atGenDelete(r, t, o)
 	}
 	c.Groups = []atGroup{{Stmts: []atStmt{st}}}
